@@ -86,10 +86,11 @@ def judge (op : String) (T0 : Lang.TState) (rest : List String) : Option String 
     let steps ← parseSteps stepFields
     let (out, val) := parseOut outcome
     -- the class is the first failed side condition among the root expressions that ran
-    let feat := features dump T0 steps.length
+    -- (computed only for failures: the functions below are not called on the `holds` path)
+    let feat (_ : Unit) := features dump T0 steps.length
     let featAt (i : Nat) := features dump T0 (i + 1)
     -- the final type state assumes the whole program ran: after a `return` nothing is known
-    let featEnd := if out == "ret" then "D_return_skips_effects" else feat
+    let featEnd (_ : Unit) := if out == "ret" then "D_return_skips_effects" else feat ()
     let fl := flags.toList
     let progFallible := fl[0]? == some '1'
     let progAbortable := fl[1]? == some '1'
@@ -101,10 +102,10 @@ def judge (op : String) (T0 : Lang.TState) (rest : List String) : Option String 
       match steps.findIdx? (fun st => st.out == "ok" && !(match st.val with | some v => Spec.memR v st.kind | none => true)) with
       | some i => pure ("fails step_value:" ++ featAt i)
       | none =>
-        if out == "ok" && !(match val with | some v => Spec.memR v resK | none => true) then pure ("fails result:" ++ feat)
-        else if out == "ret" && !(match val with | some v => Spec.memR v retK | none => true) then pure ("fails returns:" ++ feat)
-        else if (out == "ok" || out == "ret") && !Spec.mem ev tgtK then pure ("fails event:" ++ featEnd)
-        else if (out == "ok" || out == "ret") && !Spec.mem md metaK then pure ("fails metadata:" ++ featEnd)
+        if out == "ok" && !(match val with | some v => Spec.memR v resK | none => true) then pure ("fails result:" ++ feat ())
+        else if out == "ret" && !(match val with | some v => Spec.memR v retK | none => true) then pure ("fails returns:" ++ feat ())
+        else if (out == "ok" || out == "ret") && !Spec.mem ev tgtK then pure ("fails event:" ++ featEnd ())
+        else if (out == "ok" || out == "ret") && !Spec.mem md metaK then pure ("fails metadata:" ++ featEnd ())
         else pure "holds"
     else if op == "o.c02" then
       -- an expression typed infallible never raises an error (NaN excepted); a program without `!`
@@ -112,9 +113,9 @@ def judge (op : String) (T0 : Lang.TState) (rest : List String) : Option String 
       match steps.findIdx? (fun st => !st.fallible && st.out == "err") with
       | some i => pure ("fails infallible_expr:" ++ featAt i)
       | none =>
-        if !hasBang && !hasAbort && (out == "err" || out == "abort") then pure ("fails program:" ++ feat)
-        else if !progFallible && out == "err" then pure ("fails info_fallible:" ++ feat)
-        else if !progAbortable && out == "abort" then pure ("fails info_abortable:" ++ feat)
+        if !hasBang && !hasAbort && (out == "err" || out == "abort") then pure ("fails program:" ++ feat ())
+        else if !progFallible && out == "err" then pure ("fails info_fallible:" ++ feat ())
+        else if !progAbortable && out == "abort" then pure ("fails info_abortable:" ++ feat ())
         else pure "holds"
     else
       -- a root expression with a compile-time constant evaluates to exactly that constant
